@@ -128,6 +128,7 @@ func c06(p *core.Prog, r *core.Report) {
 	c06Stamping(p, r)
 	c06RawHeader(p, r)
 	c06InitResID(p, r)
+	c06InitResChecked(p, r)
 	// what goes into a frame comes from somewhere: every field of the message,
 	// frame and relay-item structs that is read is also assigned
 	readFieldsAreAssigned(p, r, "C06-R3", nil)
@@ -343,6 +344,32 @@ func c06InitResID(p *core.Prog, r *core.Report) {
 	r.Check(ok, "C06-R3", fname(g), "initMessage.id = id parameter", p.Pos(g.Pos()), "id stored unchanged", "the init message does not carry the id it was asked to carry")
 }
 
+// c06InitResChecked: the dialling side accepts an init res only under the id
+// of its init req: the connection is constructed under an equality test of
+// the id readMessage returned for the response.
+func c06InitResChecked(p *core.Prog, r *core.Report) {
+	f := mustFunc(p, r, "", "Channel", "outboundHandshake")
+	if f == nil {
+		return
+	}
+	ncs := core.CallsIn(f, "Channel.newConnection")
+	if len(ncs) == 0 {
+		r.Errorf("outboundHandshake: no newConnection call found")
+		return
+	}
+	isResID := func(v ssa.Value) bool {
+		e, ok := v.(*ssa.Extract)
+		return ok && e.Index == 0 && callResult(e.Tuple, "Channel.readMessage") != nil
+	}
+	ok := false
+	for _, c := range factsAt(ncs[0].Block()).cmps {
+		if c.Op == token.EQL && (isResID(c.X) || isResID(c.Y)) {
+			ok = true
+		}
+	}
+	r.Check(ok, "C06-R3", fname(f), "init res accepted only under the id of the init req", p.Pos(ncs[0].Pos()), "newConnection is dominated by an equality test of the response frame's id", "an init res with any id is accepted: the id of the handshake frames is no longer checked")
+}
+
 func c06RawHeader(p *core.Prog, r *core.Report) {
 	bufF := p.Field("", "Frame", "buffer")
 	hdrF := p.Field("", "Frame", "headerBuffer")
@@ -539,6 +566,24 @@ func c06Inside(p *core.Prog, r *core.Report) {
 	}
 	sizedEvidence := func(v ssa.Value) bool {
 		return callResult(v, "FrameHeader.PayloadSize") != nil
+	}
+	// a read buffer directly over the Payload field (no slice expression at
+	// all) decodes the whole pooled buffer as well
+	for _, f := range p.SrcFuncs {
+		if pkgOf(f) != core.Root {
+			continue
+		}
+		f := f
+		core.EachInstr(f, func(i ssa.Instruction) {
+			c, ok := core.IsCall(i, "typed.ReadBuffer.Wrap", "typed.NewReadBuffer")
+			if !ok {
+				return
+			}
+			args := core.CallArgs(c)
+			if ld, isLd := args[len(args)-1].(*ssa.UnOp); isLd && core.LoadedField(ld) == payloadF {
+				r.Fail("C06-R4", fname(f), "Payload wrapped by a read buffer", p.Pos(i.Pos()), "a read buffer covers the whole pooled payload buffer instead of the declared size: a truncated message is completed from stale bytes of an earlier frame")
+			}
+		})
 	}
 	for _, s := range sites {
 		name := sinkName(s.ins)
